@@ -212,7 +212,9 @@ func (nv *nodeVariable) Execute(ctx *ExecutionContext, writer TemplateWriter) *E
 	}
 
 	verifEv("Write", verifB(ctx.Autoescape), verifB(nv.expr.FilterApplied("safe")), verifB(value.safe), verifB(value.IsString()), "", "", ctx)
-	if !nv.expr.FilterApplied("safe") && !value.safe && value.IsString() && ctx.Autoescape {
+	// A fmt.Stringer prints text of the caller's choosing, whatever its kind: it is escaped like a string.
+	_, isStringer := value.Interface().(fmt.Stringer)
+	if !nv.expr.FilterApplied("safe") && !value.safe && (value.IsString() || isStringer) && ctx.Autoescape {
 		// apply escape filter
 		value, err = filters["escape"](value, nil)
 		if err != nil {
